@@ -207,8 +207,25 @@ def der_signature_rows(check, repo):
         ("truncated", ok[:-1], False),
         ("empty", b"", False),
     ]
+    # a group of 521 bits: the SEQUENCE is 128 bytes or longer, so its own length is in long form
+    order521 = (1 << 521) - 1
+    r5, s5 = (1 << 520) + 0x1234, (1 << 519) + 99
+    ok5 = der.seq(der.integer(r5), der.integer(s5))
+    body5 = ok5[3:]
+    assert ok5[:2] == b"\x30\x81" and len(body5) >= 128
+    cases5 = [
+        ("P-521 size, canonical (long-form length 81 LL)", ok5, True),
+        ("P-521 size, length with a leading zero (82 00 LL)", b"\x30\x82\x00" + bytes([len(body5)]) + body5, False),
+        ("P-521 size, length with two leading zeros (83 00 00 LL)", b"\x30\x83\x00\x00" + bytes([len(body5)]) + body5, False),
+        ("P-521 size, indefinite length", b"\x30\x80" + body5 + b"\x00\x00", False),
+        ("P-521 size, length one too large", b"\x30\x81" + bytes([len(body5) + 1]) + body5, False),
+    ]
     wrong = []
-    for what, sig, accept in cases:
+    for what, sig, accept in cases + cases5:
+        if sig is ok5 or what.startswith("P-521"):
+            order, obits, obytes = order521, 521, 66
+        else:
+            order, obits, obytes = (1 << 255) - 19, 255, 32
         seen = []
 
         def m_verify(i, base, a, kw, st, node, seen=seen):
@@ -220,7 +237,7 @@ def der_signature_rows(check, repo):
                                   "Crypto.Util.asn1.DerObject": False, "Crypto.Util.asn1.BytesIO_EOF": False})
         st = State()
         me = it.new_obj(st, mod, repo.cls(mod, "DeterministicDsaSigScheme"), havoc=False)
-        st.heap[me.ident].update({"_encoding": "der", "_order": order, "_order_bits": 255, "_order_bytes": 32,
+        st.heap[me.ident].update({"_encoding": "der", "_order": order, "_order_bits": obits, "_order_bytes": obytes,
                                   "_key": it.new_obj(st, label="key"), "_private_key": UNK})
         res = it.run(mod, fn, {"msg_hash": it.new_obj(st, label="hash"), "signature": sig}, self_obj=me, state=st)
         reached = bool(seen)
